@@ -300,3 +300,115 @@ Theorem C04_xer_skip_run_safe : forall (evs : list xct) (depth : Z) (k : nat) (r
   (k <= n <= k + length evs)%nat /\ (r = 0 -> 0 < d) /\ (r = 1 \/ r = 2 -> d = 0).
 Proof. exact xer_skip_run_safe. Qed.
 Print Assumptions C04_xer_skip_run_safe.
+
+(* ---------------------------------------------------------------------------------------------
+   The tag-to-member lookups of the BER decoders of SEQUENCE / SET / CHOICE (Rt/SafetyTagMap.v):
+   the SAFETY side.  No hypothesis on the tables: every member table, every tag table (sorted or
+   not, offsets right or wrong), every entry bsearch() may have returned, every tag, every input. *)
+From A1 Require Import Rt.SafetyTagMap.
+From Coq Require Import Sorted.
+
+(* bsearch() indexes inside the table and needs no fuel *)
+Theorem C04_tagmap_bsearch_in_table : forall (cmp : entry -> comparison) (m : list entry) (p : nat),
+  bsearch cmp m = Some p -> (p < length m)%nat /\ exists e, nth_error m p = Some e /\ cmp e = Eq.
+Proof. exact bsearch_in_table. Qed.
+Print Assumptions C04_tagmap_bsearch_in_table.
+
+Theorem C04_tagmap_bsearch_any_fuel : forall (cmp : entry -> comparison) (m : list entry) (fuel : nat),
+  (length m < fuel)%nat -> bsearch_loop fuel cmp m 0 (length m) = bsearch cmp m.
+Proof. exact bsearch_any_fuel. Qed.
+Print Assumptions C04_tagmap_bsearch_any_fuel.
+
+(* the scan of the entries bearing the tag: whatever entry was probed, the member it answers lies
+   in the window [edx, edx_max] and is named by an entry of the table *)
+Theorem C04_tagmap_pick_in_window : forall (m : list entry) (probe edx edx_max k : nat),
+  seq_pick m probe edx edx_max = PSome k ->
+  (edx <= k <= edx_max)%nat /\ exists e, In e m /\ el_no e = k.
+Proof. exact seq_pick_window. Qed.
+Print Assumptions C04_tagmap_pick_in_window.
+
+(* ... and the two pointers it forms stay inside a table whose offsets are inside (checked by the
+   tie on every table the compiler emits) *)
+Theorem C04_tagmap_pick_stays_inside : forall (m : list entry) (probe edx edx_max : nat),
+  offsets_inside m = true -> (probe < length m)%nat -> seq_pick m probe edx edx_max <> POutside.
+Proof. exact seq_pick_inside. Qed.
+Print Assumptions C04_tagmap_pick_stays_inside.
+
+(* the lookup of SEQUENCE_decode_ber never returns a member below the current position *)
+Theorem C04_seq_lookup_never_goes_back : forall (els : list elem) (m : list entry) (edx : nat) (tag : Z) (n : nat),
+  seq_find els m edx tag = Some n -> (edx <= n <= edx + opt_of els edx)%nat.
+Proof. exact seq_find_not_below. Qed.
+Print Assumptions C04_seq_lookup_never_goes_back.
+
+Theorem C04_seq_lookup_in_member_table : forall (els : list elem) (m : list entry) (edx : nat) (tag : Z) (n : nat),
+  names_members (length els) m = true -> seq_find els m edx tag = Some n -> (n < length els)%nat.
+Proof. exact seq_find_in_table. Qed.
+Print Assumptions C04_seq_lookup_in_member_table.
+
+(* hence the member loop terminates (its fuel is never the answer; any larger fuel gives the same
+   answer) and decodes no member twice *)
+Theorem C04_seq_member_loop_terminates : forall (els : list elem) (m : list entry) (first_ext : option nat)
+    (reent : list bool) (tlvs : list Z),
+  seq_members els m first_ext reent tlvs <> LFuel.
+Proof. exact seq_members_terminates. Qed.
+Print Assumptions C04_seq_member_loop_terminates.
+
+Theorem C04_seq_member_loop_any_fuel : forall (els : list elem) (m : list entry) (first_ext : option nat)
+    (reent : list bool) (tlvs : list Z) (fuel : nat),
+  (length els + length tlvs < fuel)%nat ->
+  member_loop (seq_find els m) (length els) (opt_of els) (ext_from first_ext) (fun i => nth i reent false)
+              fuel 0 tlvs [] = seq_members els m first_ext reent tlvs.
+Proof. exact seq_members_any_fuel. Qed.
+Print Assumptions C04_seq_member_loop_any_fuel.
+
+Theorem C04_seq_no_member_decoded_twice : forall (els : list elem) (m : list entry) (first_ext : option nat)
+    (reent : list bool) (tlvs : list Z) (tr : list nat),
+  seq_members els m first_ext reent tlvs = LOk tr ->
+  StronglySorted lt tr /\ NoDup tr /\ (length tr <= length tlvs)%nat.
+Proof. exact seq_members_no_member_twice. Qed.
+Print Assumptions C04_seq_no_member_decoded_twice.
+
+(* the same loop under ANY lookup that never goes back (the one fact the loop needs) *)
+Theorem C04_member_loop_total_under_monotone_lookup :
+  forall (find : nat -> Z -> option nat) (count : nat) (optional : nat -> nat) (in_ext reentrant : nat -> bool),
+  (forall edx tag n, find edx tag = Some n -> (edx <= n)%nat) ->
+  forall (fuel edx : nat) (tlvs : list Z) (done : list nat),
+  Forall (fun d => (d < edx)%nat) done -> ((count - edx) + length tlvs < fuel)%nat ->
+  member_loop find count optional in_ext reentrant fuel edx tlvs done <> LFuel.
+Proof. exact member_loop_total_gen. Qed.
+Print Assumptions C04_member_loop_total_under_monotone_lookup.
+
+(* the backwards walk without the lower bound (seeded/C04-5), on the tables asn1c emits for a legal
+   type: the lookup goes back; a member is decoded twice; with a member that keeps a decoder context
+   the loop never ends, whatever the fuel *)
+Theorem C04_backwards_walk_goes_back_refuted :
+  bsearch (seq_cmp 24 1) wit_map = Some 2%nat /\
+  seq_pick_back wit_map 2 1 2 = PSome 0 /\
+  seq_pick wit_map 2 1 2 = PNone /\
+  seq_find_back wit_els wit_map 1 24 = Some 0%nat /\
+  seq_find wit_els wit_map 1 24 = None.
+Proof. exact scan_back_below_refuted. Qed.
+Print Assumptions C04_backwards_walk_goes_back_refuted.
+
+Theorem C04_backwards_walk_decodes_twice_refuted :
+  seq_members_back wit_els wit_map None [false; false; false; false] wit_tlvs = LOk [0; 0; 2]%nat /\
+  seq_members wit_els wit_map None [false; false; false; false] wit_tlvs = LFail.
+Proof. exact seq_members_back_twice_refuted. Qed.
+Print Assumptions C04_backwards_walk_decodes_twice_refuted.
+
+Theorem C04_backwards_walk_hangs_refuted : forall fuel : nat,
+  member_loop (seq_find_back wit_els_os wit_map_os) 4 (opt_of wit_els_os) (ext_from None)
+              (fun i => nth i [true; false; false; true] false) fuel 0 [16; 16; 4] [] = LFuel.
+Proof. exact seq_members_back_hangs_refuted. Qed.
+Print Assumptions C04_backwards_walk_hangs_refuted.
+
+(* SET: the presence test precedes the member's decoder; SET / CHOICE: the member is one the table names *)
+Theorem C04_set_no_member_decoded_twice : forall (m : list entry) (ext : bool) (tlvs : list Z) (tr : list nat),
+  set_members m ext tlvs = Some tr -> NoDup tr /\ (length tr <= length tlvs)%nat.
+Proof. exact set_members_no_member_twice. Qed.
+Print Assumptions C04_set_no_member_decoded_twice.
+
+Theorem C04_tag_find_in_member_table : forall (count : nat) (m : list entry) (tag : Z) (n : nat),
+  names_members count m = true -> tag_find m tag = Some n -> (n < count)%nat.
+Proof. exact tag_find_in_table. Qed.
+Print Assumptions C04_tag_find_in_member_table.
